@@ -471,6 +471,7 @@ func (r *Reader) seekIndexed(want record) (*tableIter, error) {
 
 	for {
 		var rec indexRecord
+		prevOff := idxIter.blockOff
 		ok, err := idxIter.Next(&rec)
 		if !ok {
 			return nil, nil
@@ -479,7 +480,7 @@ func (r *Reader) seekIndexed(want record) (*tableIter, error) {
 			return nil, err
 		}
 
-		if rec.Offset >= idxIter.blockOff {
+		if rec.Offset >= prevOff {
 			// an index block comes after the blocks it points to.
 			return nil, fmtError
 		}
